@@ -277,6 +277,9 @@ def return_paths(func, max_paths=400, inline=True, _depth=0,
                                 st.body),
                                (b, GuardWalker._atoms(st.test, False),
                                 st.orelse)):
+                if isinstance(st.test, ast.Constant) and \
+                        bool(st.test.value) != (blk is st.body):
+                    continue          # `if True:` / `if False:` - dead branch
                 fs = list(fs) + _flag_atoms(x, fs)
                 if x.contradicts(fs):
                     continue          # infeasible: opposite of a known fact
